@@ -164,6 +164,10 @@ def eval_split(model, have_H, is_left, hooks=None, halfway=False):
     the two children need not have the same length)."""
     fi = model.func(BI, "_Interval._increment_and_space_time_levy_area")
     hooks = hooks or BrownianHooks()
+    if getattr(hooks, "ordering", None) is None:
+        # the generic position of a split: two unequal parts (a branch for the special case l == r is not what the symbolic
+        # identities in l, r are about; splits at exact midpoints are covered by the replay rules)
+        hooks.ordering = {"s": Fraction(0), "l": Fraction(1), "r": Fraction(3)}
     it = Interp(model, hooks)
     top, cache = make_top(model, have_H=have_H, halfway=halfway)
     s, l, r = nf.sym("s", True), nf.sym("l", True), nf.sym("r", True)
